@@ -96,14 +96,21 @@ def run(ch: Checker) -> None:
                 if isinstance(c, ast.Call) and attr_chain(c.func) in ('self.selector.register', 'self.selector.modify'):
                     # next executed statement must record it
                     nxt = ex[k + 1][1] if k + 1 < len(ex) else None
-                    okn = nxt is not None and nxt.kind == 'stmt' and isinstance(nxt.ast, ast.Assign) and \
-                        norm(nxt.ast.targets[0]).startswith('self.registered_events_by_work_ids[work_id][') and \
-                        norm(nxt.ast.targets[0].slice) == (norm(c.args[0]) if c.args else '')  # type: ignore[attr-defined]
+                    nidx = ex[k + 1][0] if k + 1 < len(ex) else 0
+                    okn = False
+                    if nxt is not None and nxt.kind == 'stmt' and isinstance(nxt.ast, ast.Assign) and isinstance(nxt.ast.targets[0], ast.Subscript) and c.args:
+                        sym = Sym(p)
+                        tg = nxt.ast.targets[0]
+                        ev = [kw.value for kw in c.keywords if kw.arg == 'events'] or (list(c.args[1:2]))
+                        okn = norm(sym.value(tg.value, nidx)) == 'self.registered_events_by_work_ids[work_id]' and \
+                            norm(sym.value(tg.slice, nidx)) == norm(sym.value(c.args[0], idx)) and \
+                            bool(ev) and norm(sym.value(nxt.ast.value, nidx)) == norm(sym.value(ev[0], idx))
                     prev = sites.get(id(c), (c, True))
                     sites[id(c)] = (c, prev[1] and bool(okn))
     for c, okn in sites.values():
         ch.check(okn, 'C10.2', uwe, c, 'registration recorded in registered_events_by_work_ids right after the selector call',
-                 'a descriptor is registered/modified in the selector without being recorded for its work at once: _cleanup will not unregister it')
+                 'a descriptor is registered/modified in the selector without being recorded at once, under its own number and with the mask just registered, in registered_events_by_work_ids[work_id]: '
+                 '_cleanup will not unregister it, or a later change of interest is compared with a stale mask and never reaches the selector')
     # _cleanup: unregister loop over the recorded descriptors precedes shutdown (path based, helper calls are inlined)
     bad_u = None
     n_u = 0
